@@ -1,5 +1,6 @@
 CONSTANTS
   Top = "A"
+  ShadowRebuilt = TRUE
   Sub = {"B", "C"}
 SPECIFICATION MCSpec
 INVARIANT TypeOK
